@@ -41,7 +41,7 @@ func (d *drv) conc(b *core.Behaviour, nkeys int) {
 	for _, c := range b.ID {
 		h = h*131 + int64(c)
 	}
-	r := rand.New(rand.NewSource(d.env.Seed*1000003 + h))
+	r := rand.New(rand.NewSource(d.env.Seed*1000003 + h + int64(d.env.OptInt("salt", 0))*7919))
 	perm := r.Perm(len(pool))
 	d.keys = map[int][]byte{}
 	d.rev = map[string]int{}
